@@ -1,6 +1,7 @@
 import GoguVerif.Go.Run
 import GoguVerif.Kinds.Common
 import GoguVerif.Spec.C04
+import GoguVerif.Model.Bst
 /-! Driver wiring for C04: spec monitor (+ model correspondence). -/
 namespace GoguVerif.Kinds
 open GoguVerif
@@ -31,8 +32,14 @@ def renderOut : Out Int Int → List Val
   | .int n => [.int n]
   | .items l => [pairsVal l]
 
+/-- What the model answers on the wire; a panicking call answers `panic`. -/
+def renderModel : Option (Out Int Int) → List Val
+  | some o => renderOut o
+  | none => [.atom "panic"]
+
 structure St where
   comp : Int → Int → Bool
+  model : Model.Bst.St Int Int := {}
   spec : List (Int × Int) := []
   patched : Patched.St Int Int := { m := [] }
   twoChildDelete : Bool := false
@@ -54,16 +61,28 @@ def kind : Kind where
         | .delete k => (Spec.OrdMap.lookup st.comp k st.spec).isSome &&
             st.spec.any (fun e => st.comp e.1 k) && st.spec.any (fun e => st.comp k e.1)
         | _ => false
-      let st' : St := { st with spec := s', patched := p', twoChildDelete := st.twoChildDelete || two,
+      -- the model of the code, run beside the monitor; its answer is compared with the implementation's
+      let mr := Model.Bst.step st.comp st.model op
+      let (m', mo) : Model.Bst.St Int Int × Option (Out Int Int) := match mr with
+        | some (m', o) => (m', some o)
+        | none => (st.model, none)
+      let mtags := match op with
+        | .delete k => [l.op, "delete:" ++ Model.Bst.deleteCase st.comp k st.model.root]
+        | .upsert k _ => [l.op, if (Model.Bst.get st.comp k st.model.root).isSome then "upsert:update" else "upsert:insert"]
+        | .get k => [l.op, if (Model.Bst.get st.comp k st.model.root).isSome then "get:found" else "get:absent"]
+        | _ => [l.op]
+      let mtags := if Model.Bst.height m'.root ≥ 4 then "height>=4" :: mtags else mtags
+      let st' : St := { st with model := m', spec := s', patched := p', twoChildDelete := st.twoChildDelete || two,
                                 maxSize := max st.maxSize s'.length }
       let nt := st'.twoChildDelete && st'.maxSize ≥ 3
-      if renderOut so == l.res then { st := st', tags := [l.op], nontrivial := nt }
+      let model := some (renderModel mo)
+      if renderOut so == l.res then { st := st', model, tags := mtags, nontrivial := nt }
       else match failRes l.res with
-        | some c => { st := st', tags := [l.op], spec := some s!"{c}:{l.op}" }
+        | some c => { st := st', model, tags := mtags, spec := some s!"{c}:{l.op}" }
         | none =>
           if renderOut po == l.res then
-            { st := st', tags := [l.op], known := some "bstree.delete-absent-decrements-size" }
-          else { st := st', tags := [l.op], spec := some s!"ordered-map:{l.op}" }
+            { st := st', model, tags := mtags, known := some "bstree.delete-absent-decrements-size" }
+          else { st := st', model, tags := mtags, spec := some s!"ordered-map:{l.op}" }
 
 end Bst
 
